@@ -622,6 +622,7 @@ def legacy_no_witness(ctx):
 @PROP.obligation('C06.witness-default', canaries=[
     mut.replace_stmt('transactions', 'Input.__init__', 'if not self.witnesses:', "self.witness_type = 'legacy'", 'input with a witness stack and a script type defaults to legacy', nth=0),
     mut.replace_expr('transactions', 'Input.__init__', "['p2sh_p2wpkh', 'p2sh_p2wsh']", "['p2sh_p2wpkh']", 'p2sh_p2wsh inputs default to legacy'),
+    mut.replace_expr('transactions', 'Input.__init__', 'witnesses[cursor + size:cursor + item_size + size]', 'witnesses[cursor + size:cursor + item_size]', 'serialised witness items cut short'),
 ])
 def witness_default(ctx):
     """Input.__init__ without witness_type (the form add_input receives from providers and dictionaries): the statements that read or write
@@ -667,6 +668,30 @@ def witness_default(ctx):
                         'Transaction.raw serialises the witness stack only for non-legacy inputs: the witness data handed to add_input is dropped from the transaction' if wit else
                         'an input without witness data is serialised in the segwit format')
     ctx.floor(n, 18, 'script type x witness combinations')
+    # the same statements on a witness stack handed over as one serialised byte string (the form the wallet database and the service
+    # cache store): every item is decoded from its own length and bytes; an empty item is the library's placeholder 00, whatever precedes it
+    def ser(items):
+        return bytes([len(items)]) + b''.join(bytes([len(x)]) + x for x in items)
+    stacks = [[b'\xaa\xbb', b'', b'\xcc'], [b'', b'\x30\x01', b'\x30\x02', b'', b'\x51'], [b'', b'\xaa'], [b'\xaa', b'\xbb\xcc'], [b'\xaa', b'', b'']]
+    for items in stacks:
+        it = Interp(ctx.repo, 'transactions', self_cls='transactions:Input', inline={'varbyteint_to_int', 'encoding:varbyteint_to_int'})
+        st = State(env={'self': S(I), 'witness_type': 'segwit', 'witnesses': ser(items), 'encoding': None, 'script_type': 'p2sh_multisig', 'signatures': None, 'keys': None, 'strict': True,
+                        'sigs_required': None, 'address': ''})
+        for k, v in (('script_type', 'p2sh_multisig'), ('unlocking_script', b''), ('locking_script', None), ('signatures', []), ('keys', []), ('address_obj', None)):
+            st.heap[('attr', I, k)] = v
+        it.frames.append([])
+        try:
+            for x in stmts:
+                st = it.exec_stmt(x, st)
+                if st is None:
+                    break
+        except AnalysisError as e:
+            ctx.undecided('Input.__init__: decoder of a serialised witness stack not evaluable: %s' % str(e)[:100])
+        got = st.heap.get(('attr', I, 'witnesses')) if st is not None else None
+        exp = [x if x else b'\x00' for x in items]
+        ctx.saw('serialised stack %s -> %s' % (ser(items).hex(), [g.hex() if isinstance(g, bytes) else show(term(g)) for g in got] if isinstance(got, list) else got))
+        ctx.require(got == exp, q, 'the serialised witness stack %s is decoded as %s, its items are %s' % (ser(items).hex(), [g.hex() if isinstance(g, bytes) else '?' for g in got] if isinstance(got, list) else got, [x.hex() for x in exp]), fn,
+                    'an input reloaded from the database / built with add_input(witnesses=<bytes>) serialises another witness stack than the one it was given')
 
 
 @PROP.obligation('C06.bip34-guard', canaries=[
@@ -863,3 +888,34 @@ def explicit_falsy(ctx):
     """A parameter of transactions.py / blocks.py / scripts.py that gets its default through a truthiness test is never passed an explicit falsy constant by a caller inside the package (version 0, locktime 0, index 0, empty script are values)."""
     from .common_falsy import falsy_defaults as run
     run(ctx, ['transactions', 'blocks', 'scripts'], 'a field given as 0 / empty on purpose is replaced by a default: the object no longer serialises to the bytes it was parsed from')
+
+
+@PROP.obligation('C06.target-compact', canaries=[
+    mut.replace_expr('blocks', 'Block.target', 'coefficient * 256 ** (exponent - 3)', 'coefficient << 8 * (exponent - 3)', 'target of a compact value with size byte below 3 raises'),
+    mut.replace_expr('blocks', 'Block.target', 'coefficient * 256 ** (exponent - 3)', 'coefficient * 256 ** (exponent - 2)', 'target one byte too large'),
+])
+def target_compact(ctx):
+    """Block.target evaluated on compact `bits` values of every size class (size byte 0..4, 0x1d, 0x20; mantissas whose dropped bytes are
+    zero): the result equals Bitcoin Core's SetCompact (mantissa >> 8*(3-size) for size <= 3, mantissa << 8*(size-3) above) and no
+    value makes the evaluation fail."""
+    q = 'blocks:Block.target'
+    fn = ctx.repo.func(q)
+    I = ('var', 'self')
+    n = 0
+    for bits in (b'\x1d\x00\xff\xff', b'\x1b\x04\x04\xcb', b'\x20\x7f\xff\xff', b'\x03\x12\x34\x56', b'\x04\x12\x34\x56', b'\x05\x00\x92\x34', b'\x02\x00\x80\x00', b'\x02\x12\x34\x00', b'\x01\x12\x00\x00', b'\x01\x00\x00\x00'):
+        size, mant = bits[0], int.from_bytes(bits[1:], 'big')
+        exp = mant >> (8 * (3 - size)) if size <= 3 else mant << (8 * (size - 3))
+        it = Interp(ctx.repo, 'blocks', self_cls='blocks:Block')
+        st = State()
+        st.heap[('attr', I, 'bits')] = bits
+        try:
+            exits = it.run_function(fn, {'self': S(I)}, st=st)
+        except AnalysisError as e:
+            ctx.violate(q, 'target of bits %s cannot be computed: %s' % (bits.hex(), str(e)[:100]), fn, 'target, difficulty and check_proof_of_work raise for a well-formed header (SetCompact gives %#x)' % exp)
+            continue
+        rets = [term(e.value) for e in exits if e.kind == 'return']
+        n += 1
+        if len(rets) != 1 or isinstance(rets[0], tuple):
+            ctx.undecided('Block.target(bits=%s) evaluates to %s' % (bits.hex(), [show(r)[:60] for r in rets]))
+        ctx.require(rets[0] == exp, q, 'target of bits %s is %s, SetCompact gives %#x' % (bits.hex(), rets[0], exp), fn, 'the target of the header is not recovered exactly')
+    ctx.saw('%d compact values agree with SetCompact' % n)
